@@ -11,10 +11,14 @@ def run(R):
         if start: starts.append(len(ops))
         ops.append(op); meta.append(m)
     # objects in exact-size heap blocks at every alignment, app fields are canaries (compared by the harness: app=1)
+    # ... and the object is refilled (random / 0xff / pattern) before EVERY call: do_crypt wipes the scratch area when it returns, so only the
+    # first call on an object sees what the application left there, and the result must not depend on it (seeded/C04c: an HMAC key block
+    # whose padding was no longer zeroed); the model starts every call from the same filled object and knows nothing of its contents
+    aligned_phrase = {m: S.gen_phrase(R.rng, 80) for m in S.METHODS}
     for a in range(16):
-        add("O %d r %d %d" % (a % 4, a, R.rng.randrange(1 << 30)), ("setup", "obj", 0, 0), start=True)
         for m in S.METHODS:
-            add(CS.crypt_op(R.rng.choice(["r", "rn"]), a % 4, S.gen_phrase(R.rng, 80), S.CANON[m]), (m, "aligned", 0, 0))
+            add("O %d %s %d %d" % (a % 4, "rfpz"[(a + len(m)) % 4], a, R.rng.randrange(1 << 30)), ("setup", "obj", 0, 0), start=True)
+            add(CS.crypt_op(R.rng.choice(["r", "rn"]), a % 4, aligned_phrase[m], S.CANON[m]), (m, "aligned", 0, 0))
     # grammar-shaped and over-long settings (up to tens of kilobytes), phrases up to and beyond the limit
     g, gm = CS.gen_stream(R, 1200 if quick else 30000, big_frac=0.1)
     for o, m in zip(g, gm): add(o, m, start=True)
@@ -48,6 +52,17 @@ def run(R):
         if f.get("out") == "unterminated" and f.get("ret") == "out": bad.append((op, "returned string is not NUL-terminated inside the 384-byte output field", line))
         if f.get("ret") == "other": bad.append((op, "returned pointer does not lie in the output field", line))
         if f.get("abort") != "0": bad.append((op, "the call aborted: " + "; ".join(sorted(set(getattr(R, "asserts", [])))[:3]), line))
+    # the same request on objects the application filled differently (random / 0xff / pattern / zero, sixteen alignments): one answer
+    seen = {}
+    prev = None
+    for op, m, line in zip(ops2, meta2, il):
+        if op.startswith("O "): prev = op
+        if m[1] != "aligned" or line.startswith("crashed"): continue
+        f = fields(line); key = (m[0],); val = (f.get("ret"), f.get("errno"), f.get("out"))
+        if key in seen and seen[key][0] != val:
+            bad.append((prev + " ; " + op, "the result depends on what the data object held before the call (uninitialised memory): on a differently filled object (%s) the same request gave %s"
+                        % (seen[key][1], seen[key][0][2]), line))
+        seen.setdefault(key, (val, prev))
     # gensalt: exact-size buffers, all sizes, negative sizes and nrbytes with NULL rbytes
     gops = []
     for m, pfx in GS.TAGS.items():
@@ -85,5 +100,5 @@ def run(R):
 def replay(R, j):
     op = (j.get("failing_input") or {}).get("op")
     if not op: print("no concrete op; unproved:", j.get("unproved")); return 2
-    out = R.run_impl([op], variant="asan"); print(op); print(out[-1] if out else "(no output)"); print(R.last_impl_stderr[-1500:])
+    out = R.run_impl(op.split(" ; "), variant="asan"); print(op); print(out[-1] if out else "(no output)"); print(R.last_impl_stderr[-1500:])
     return 1 if ("ERROR: AddressSanitizer" in R.last_impl_stderr or "runtime error" in R.last_impl_stderr) else 0
